@@ -163,25 +163,25 @@ def run(ck):
     r7(ck, F)
 
 
-def r1(ck, F):
+def r1(ck, F, rid="C08.R1"):
     for ty, kids in ((COMB + "And<", ["a", "b"]), (COMB + "Or<", ["a", "b"]), (COMB + "Not<", ["a"])):
         name = ty.rsplit("::", 1)[1].rstrip("<")
         bi = F.impl_method(FILTER, ty, "callsite_enabled")
         be = F.impl_method(FILTER, ty, "enabled")
         bh = F.impl_method(FILTER, ty, "max_level_hint")
-        if not (ck.anchor("C08.R1", name + "::callsite_enabled", bi) and ck.anchor("C08.R1", name + "::enabled", be) and ck.anchor("C08.R1", name + "::max_level_hint", bh)):
+        if not (ck.anchor(rid, name + "::callsite_enabled", bi) and ck.anchor(rid, name + "::enabled", be) and ck.anchor(rid, name + "::max_level_hint", bh)):
             continue
         I = table_I(bi, kids)
         E = table_E(be, kids)
         key = "%s: callsite_enabled sound w.r.t. enabled" % name
         if isinstance(I, str) or isinstance(E, str):
-            ck.bad("C08.R1", key, where(bi.raw["sp"]), "table not extractable: %s / %s" % (I if isinstance(I, str) else "ok", E if isinstance(E, str) else "ok"), fn=bi.path)
+            ck.bad(rid, key, where(bi.raw["sp"]), "table not extractable: %s / %s" % (I if isinstance(I, str) else "ok", E if isinstance(E, str) else "ok"), fn=bi.path)
         else:
             bad = soundness(I, E, len(kids))
             if bad:
-                ck.bad("C08.R1", key, where(bi.raw["sp"]), "unsound summary: %s (I=%s)" % (bad[0], {"/".join(k): v for k, v in I.items()}), fn=bi.path)
+                ck.bad(rid, key, where(bi.raw["sp"]), "unsound summary: %s (I=%s)" % (bad[0], {"/".join(k): v for k, v in I.items()}), fn=bi.path)
             else:
-                ck.ok("C08.R1", key, fn=bi.path, detail=dict(I={"/".join(k): v for k, v in I.items()}, E={str(k): v for k, v in E.items()}))
+                ck.ok(rid, key, fn=bi.path, detail=dict(I={"/".join(k): v for k, v in I.items()}, E={str(k): v for k, v in E.items()}))
         # hints
         hp = [p for p in PathEval(bh).run() if p.end == "return"]
         key = "%s: max_level_hint is a sound bound" % name
@@ -201,12 +201,12 @@ def r1(ck, F):
         else:
             good = txt == ["Option::None{}"]
         if good:
-            ck.ok("C08.R1", key, fn=bh.path, detail=txt)
+            ck.ok(rid, key, fn=bh.path, detail=txt)
         else:
-            ck.bad("C08.R1", key, where(bh.raw["sp"]), "hint expression %s is not a recognised sound bound for %s" % (txt, name), fn=bh.path)
+            ck.bad(rid, key, where(bh.raw["sp"]), "hint expression %s is not a recognised sound bound for %s" % (txt, name), fn=bh.path)
 
 
-def r2(ck, F):
+def r2(ck, F, rid="C08.R2"):
     want = {
         "enabled": ("unwrap_or(map(as_ref(arg1), ", ", 1)"),
         "event_enabled": ("unwrap_or(map(as_ref(arg1), ", ", 1)"),
@@ -216,7 +216,7 @@ def r2(ck, F):
     for m, (pre, suf) in want.items():
         b = F.impl_method(FILTER, "core::option::Option<F>", m)
         key = "Filter for Option<F>::%s" % m
-        if not ck.anchor("C08.R2", key, b):
+        if not ck.anchor(rid, key, b):
             continue
         r = [show(p.ret) for p in PathEval(b).run() if p.end == "return"]
         cl = F.closures_of(b)
@@ -231,9 +231,9 @@ def r2(ck, F):
             neutral = {"enabled": "1", "event_enabled": "1", "callsite_enabled": "always()", "max_level_hint": "Option::None{}"}[m]
             ok = rows.get(0) == neutral and rows.get(1, "").startswith(m + "(")
         if ok:
-            ck.ok("C08.R2", key, fn=b.path, detail=r)
+            ck.ok(rid, key, fn=b.path, detail=r)
         else:
-            ck.bad("C08.R2", key, where(b.raw["sp"]), "None must be neutral (true / always / no hint) and Some must forward; got %s with closure %s" % (r, fw), fn=b.path)
+            ck.bad(rid, key, where(b.raw["sp"]), "None must be neutral (true / always / no hint) and Some must forward; got %s with closure %s" % (r, fw), fn=b.path)
 
 
 def r3(ck, F):
